@@ -403,3 +403,167 @@ Theorem C10_accepted_checks_passed :
          (nonce_checked v = true -> nonce_guard p v = true).
 Proof. exact accepted_checks_passed. Qed.
 Print Assumptions C10_accepted_checks_passed.
+
+From SV Require Import Base.Bytes Json.Ast Json.GoJson Resolve.Op Doc.Validator Parser.Accept Parser.AcceptProofs Parser.ViewOfBytes Parser.ViewOfBytesProofs Parser.ViewValidated Parser.ViewValidatedProofs.
+Local Close Scope Z_scope.
+
+(* the request view with the C18 validator model plugged in is the view of ViewOfBytes on the verdict list COMPUTED from the bytes (valid_of_bytes = validate_patch on every decoded patch) - the list is no longer a fact *)
+Theorem C10_validated_view_is_view_with_computed_verdicts :
+  forall (uri_ok : bytes -> bool) (uri_parse : bytes -> option bytes)
+           (ov : option json -> bool) (b : bytes),
+         validated_view uri_ok uri_parse ov b =
+         view_of_request b (valid_of_bytes uri_ok uri_parse b) (origin_of_bytes ov b).
+Proof. exact validated_view_is_view_of_request. Qed.
+Print Assumptions C10_validated_view_is_view_with_computed_verdicts.
+
+(* hence the parser model on bytes with computed verdicts is parse_operation_bytes on that list: every C10_bytes_* theorem applies with valid := valid_of_bytes b *)
+Theorem C10_validated_parse_is_bytes_parse :
+  forall (uri_ok : bytes -> bool) (uri_parse : bytes -> option bytes) 
+           (p : pproto) (batch t : bool) (ov : option json -> bool) (b : bytes),
+         parse_operation_validated uri_ok uri_parse p batch t ov b =
+         parse_operation_bytes p batch t b (valid_of_bytes uri_ok uri_parse b) (origin_of_bytes ov b).
+Proof. exact parse_operation_validated_is_bytes. Qed.
+Print Assumptions C10_validated_parse_is_bytes_parse.
+
+(* the verdict list inside the view is exactly one computed verdict per decoded patch, in order *)
+Theorem C10_verdict_list_one_per_decoded_patch :
+  forall (uri_ok : bytes -> bool) (uri_parse : bytes -> option bytes)
+           (ov : option json -> bool) (b : bytes),
+         dv_patch_valid (rv_delta (validated_view uri_ok uri_parse ov b)) =
+         valid_of_bytes uri_ok uri_parse b.
+Proof. exact validated_view_valid. Qed.
+Print Assumptions C10_verdict_list_one_per_decoded_patch.
+
+(* whatever the bytes, no decoded patch (patch.Patch, a Go map) has two members of the same name - including patches merged from repeated "patches" arrays and stale backing-array elements *)
+Theorem C10_decoded_patches_have_distinct_member_names :
+  forall b : bytes, Forall patchv_wf (dq_patches (decode_request b)).
+Proof. exact decoded_patches_wf. Qed.
+Print Assumptions C10_decoded_patches_have_distinct_member_names.
+
+(* Patch.GetAction as read by the parser view (first occurrence, table known_actions) and by the validator model (last occurrence, table actionConfig) coincide on patches with distinct member names *)
+Theorem C10_get_action_same_in_both_models :
+  forall p : patchv, patchv_wf p -> action_of p = patch_action (json_of_patchv p).
+Proof. exact action_of_patch_action. Qed.
+Print Assumptions C10_get_action_same_in_both_models.
+
+(* the action list of the view is patch_action of the validator model on the decoded patches *)
+Theorem C10_view_actions_are_validator_actions :
+  forall (uri_ok : bytes -> bool) (uri_parse : bytes -> option bytes)
+           (ov : option json -> bool) (b : bytes),
+         dv_actions (rv_delta (validated_view uri_ok uri_parse ov b)) =
+         map patch_action (decoded_patches b).
+Proof. exact validated_view_actions. Qed.
+Print Assumptions C10_view_actions_are_validator_actions.
+
+(* for every byte string the patch loop of ValidateDelta in the parser model (patches_ok on the view) equals the C18 model's loop validate_delta_patches (>= 1 patch; action configured, enabled, Validate) on the patches decoded from the bytes *)
+Theorem C10_delta_loop_is_the_C18_loop :
+  forall (uri_ok : bytes -> bool) (uri_parse : bytes -> option bytes) 
+           (p : pproto) (ov : option json -> bool) (b : bytes),
+         let d := rv_delta (validated_view uri_ok uri_parse ov b) in
+         delta_patches_validated uri_ok uri_parse p b =
+         match dv_actions d with
+         | [] => false
+         | _ :: _ => patches_ok p (dv_actions d) (dv_patch_valid d)
+         end.
+Proof. exact delta_loop_agrees. Qed.
+Print Assumptions C10_delta_loop_is_the_C18_loop.
+
+(* validate_delta = delta present && C18 loop on the decoded patches && update commitment multihash && canonical size within MaxDeltaSize *)
+Theorem C10_validate_delta_in_C18_terms :
+  forall (uri_ok : bytes -> bool) (uri_parse : bytes -> option bytes) 
+           (p : pproto) (ov : option json -> bool) (b : bytes),
+         let d := rv_delta (validated_view uri_ok uri_parse ov b) in
+         validate_delta p d =
+         dv_present d && delta_patches_validated uri_ok uri_parse p b &&
+         validate_multihash p (dv_update_commitment d) &&
+         negb (blen (dv_canonical d) >? pp_max_delta_size p)%Z.
+Proof. exact validate_delta_validated. Qed.
+Print Assumptions C10_validate_delta_in_C18_terms.
+
+(* create/update/recover accepted at intake, as bytes: the decoded delta has >= 1 patch and every decoded patch satisfies the validator model and carries a configured action enabled by the protocol *)
+Theorem C10_accepted_request_patches_validated :
+  forall (uri_ok : bytes -> bool) (uri_parse : bytes -> option bytes) 
+           (p : pproto) (t : bool) (ov : option json -> bool) (b : bytes) 
+           (o : parsed),
+         parse_operation_validated uri_ok uri_parse p false t ov b = Some o ->
+         po_ty o <> Deactivate -> patches_validated uri_ok uri_parse p b.
+Proof. exact accepted_request_patches_validated. Qed.
+Print Assumptions C10_accepted_request_patches_validated.
+
+(* a decoded patch that the validator model refuses makes intake reject the request, whatever else the bytes contain *)
+Theorem C10_refused_patch_rejects_request :
+  forall (uri_ok : bytes -> bool) (uri_parse : bytes -> option bytes) 
+           (p : pproto) (t : bool) (ov : option json -> bool) (b : bytes) 
+           (pt : patchv),
+         In pt (dq_patches (decode_request b)) ->
+         validate_patch uri_ok uri_parse (json_of_patchv pt) = false ->
+         forall o : parsed,
+         parse_operation_validated uri_ok uri_parse p false t ov b = Some o -> po_ty o = Deactivate.
+Proof. exact refused_patch_rejects. Qed.
+Print Assumptions C10_refused_patch_rejects_request.
+
+(* the update rules of C10_bytes_update_rules with the verdict list computed, plus validation of every decoded patch *)
+Theorem C10_update_rules_with_computed_verdicts :
+  forall (uri_ok : bytes -> bool) (uri_parse : bytes -> option bytes) 
+           (p : pproto) (t : bool) (ov : option json -> bool) (b : bytes) 
+           (o : parsed),
+         parse_operation_validated uri_ok uri_parse p false t ov b = Some o ->
+         rv_type (validated_view uri_ok uri_parse ov b) = bytes_of_string "update" ->
+         exists r : update_m,
+           unmarshal update_member update_zero b = Some r /\
+           ur_did r <> [] /\
+           hash_field_ok p (ur_reveal r) /\
+           ur_signed r <> [] /\
+           signed_rules p (validated_view uri_ok uri_parse ov b) /\
+           t = true /\
+           decoded_delta_ok p (ur_delta r) (valid_of_bytes uri_ok uri_parse b) /\
+           patches_validated uri_ok uri_parse p b /\ po_ty o = Update /\ po_suffix o = ur_did r.
+Proof. exact update_validated_accept_implies_rules. Qed.
+Print Assumptions C10_update_rules_with_computed_verdicts.
+
+(* a real signed update (add-services + ietf-json-patch) is accepted by the model from its bytes alone *)
+Theorem C10_validated_example_accepted :
+  option_map (fun o : parsed => (po_ty o, po_suffix o))
+           (parse_operation_validated ValidatorProofs.uri_ok_demo ValidatorProofs.uri_parse_demo
+              ex_proto false true ex_ov ex_vl_request) =
+         Some (Update, bytes_of_string "EiD-W22RJooPxnQWIomWzlbaQXTNpZJ9k5buHUdqGxX_1A").
+Proof. exact ex_vl_accepted. Qed.
+Print Assumptions C10_validated_example_accepted.
+
+(* the same request with the JSON-patch move aimed at /service/0: verdicts [true; false], rejected at intake, parsed in batch mode *)
+Theorem C10_validated_example_refused :
+  (valid_of_bytes ValidatorProofs.uri_ok_demo ValidatorProofs.uri_parse_demo ex_vl_refused,
+          parse_operation_validated ValidatorProofs.uri_ok_demo ValidatorProofs.uri_parse_demo
+            ex_proto false true ex_ov ex_vl_refused,
+          option_map po_ty
+            (parse_operation_validated ValidatorProofs.uri_ok_demo ValidatorProofs.uri_parse_demo
+               ex_proto true true ex_ov ex_vl_refused)) = ([true; false], None, Some Update).
+Proof. exact ex_vl_refused_rejected. Qed.
+Print Assumptions C10_validated_example_refused.
+
+(* the same bytes under a protocol that does not enable ietf-json-patch are rejected although every patch is valid *)
+Theorem C10_validated_example_action_disabled :
+  parse_operation_validated ValidatorProofs.uri_ok_demo ValidatorProofs.uri_parse_demo
+           {|
+             pp_max_op_size := 6000;
+             pp_max_hash_len := 100;
+             pp_max_delta_size := 3000;
+             pp_nonce_size := 16;
+             pp_time_delta := 7200;
+             pp_hash_algs := [18%N; 19%N];
+             pp_sig_algs := pp_sig_algs ex_proto;
+             pp_key_algs := pp_key_algs ex_proto;
+             pp_patches :=
+               map bytes_of_string
+                 ["replace"%string; "add-public-keys"%string; "add-services"%string]
+           |} false true ex_ov ex_vl_request = None.
+Proof. exact ex_vl_action_disabled. Qed.
+Print Assumptions C10_validated_example_action_disabled.
+
+(* with a URI oracle that refuses the endpoint the first patch is refused and the request rejected *)
+Theorem C10_validated_example_oracle_matters :
+  (valid_of_bytes (fun _ : bytes => false) ValidatorProofs.uri_parse_demo ex_vl_request,
+          parse_operation_validated (fun _ : bytes => false) ValidatorProofs.uri_parse_demo ex_proto
+            false true ex_ov ex_vl_request) = ([false; true], None).
+Proof. exact ex_vl_oracle_matters. Qed.
+Print Assumptions C10_validated_example_oracle_matters.
